@@ -50,7 +50,8 @@ Expand(e, x) == IF e.op = "seq" THEN Compose(e.kids[2], 10 * x + 2, Expand(e.kid
 Compose(r, x, F) ==
   LET S == IF r.sf THEN St(x, Nil, F.t, F.l) ELSE Nil IN
   CASE r.op = "seq"    -> After(Expand(r, x), F)
-    [] r.op = "mapper" -> [a |-> App(x, S, <<F.a>>), t |-> App(x, S, <<F.t>>), l |-> F.l]
+    \* "custom": a mapper written by hand against the public composition API (one builder object kept by the operator)
+    [] r.op \in {"mapper", "custom"} -> [a |-> App(x, S, <<F.a>>), t |-> App(x, S, <<F.t>>), l |-> F.l]
     [] r.op = "apply"  -> [a |-> App(x, S, <<F.a>>), t |-> F.t, l |-> F.l]
     [] r.op = "train"  -> [a |-> F.a, t |-> App(x, S, <<F.t>>), l |-> F.l]
     [] r.op = "label"  -> [a |-> F.a, t |-> F.t, l |-> App(x, S, <<F.l>>)]
